@@ -698,6 +698,20 @@ func c29Exec(ctx *vk.Ctx, c c29Case) (err error) {
 			return nil // environment problem, not a property violation
 		}
 		defer os.RemoveAll(r.dir)
+		defer func() {
+			// A scratch directory removed from outside (e.g. a /var/tmp clean-up while the check
+			// runs) makes any result meaningless: stop the worker without a verdict (the driver
+			// reports INCONCLUSIVE), never a violation.
+			if p := recover(); p != nil || err != nil {
+				if _, serr := os.Stat(r.dir); serr != nil {
+					fmt.Printf("scratch directory %s vanished during the case (%v); aborting without verdict\n", r.dir, serr)
+					os.Exit(3)
+				}
+				if p != nil {
+					panic(p)
+				}
+			}
+		}()
 	}
 	if err := r.open(); err != nil {
 		return err
